@@ -717,6 +717,14 @@ impl<'a, 'b, 'ast> Visit<'ast> for Rewriter<'a, 'b> {
                 let (lo, hi) = self.fx.rng(p.span());
                 self.edit(lo, hi, "self__m".to_string(), "R4");
             }
+            Expr::Lit(ExprLit { lit: Lit::ByteStr(bs), .. }) if !bs.value().is_empty() => {
+                // R13: Verus knows the length of a byte-string literal but not its contents
+                let v = bs.value();
+                let (lo, hi) = self.fx.rng(e.span());
+                let seq = v.iter().map(|b| format!(".push({}u8)", b)).collect::<Vec<_>>().join("");
+                let orig = self.fx.text(e.span()).to_string();
+                self.edit(lo, hi, format!("blit({}, Ghost(Seq::<u8>::empty(){}))", orig, seq), "R13");
+            }
             Expr::ForLoop(f) => self.rw_for(f),
             Expr::While(w) => {
                 let (wlo, _) = self.fx.rng(w.while_token.span());
